@@ -10,6 +10,7 @@ import (
 	"sync/atomic"
 	"testing"
 
+	"github.com/mandykoh/prism/ciexyy"
 	"github.com/mandykoh/prism/ciexyz"
 	"pgregory.net/rapid"
 
@@ -58,7 +59,9 @@ func pipelineVia(s, d *sp.API, p color.NRGBA, via string) (out [3]float64, alpha
 		c, alpha = s.FromNRGBA(p)
 	}
 	xyz := s.ToXYZ(c)
-	if s.White() != d.White() || via == "adapt-always" {
+	if via == "adapt-xyz-constants" && s.White() != d.White() {
+		xyz = ciexyz.AdaptBetweenXYZWhitePoints(whiteConst(s), whiteConst(d)).Apply(xyz)
+	} else if s.White() != d.White() || via == "adapt-always" {
 		xyz = ciexyz.AdaptBetweenXYYWhitePoints(s.White(), d.White()).Apply(xyz)
 	}
 	dc := d.FromXYZ(xyz)
@@ -74,6 +77,15 @@ func pipelineVia(s, d *sp.API, p color.NRGBA, via string) (out [3]float64, alpha
 	return [3]float64{float64(o.R), float64(o.G), float64(o.B)}, float64(o.A)
 }
 
+// whiteConst returns the package's XYZ constant for a space's white (ciexyz.D50 / ciexyz.D65), which is what a
+// caller who builds the adaptation from XYZ values writes.
+func whiteConst(a *sp.API) ciexyz.Color {
+	if a.White() == ciexyy.D50 {
+		return ciexyz.D50
+	}
+	return ciexyz.D65
+}
+
 func pipeline(s, d *sp.API, p color.NRGBA) color.NRGBA {
 	c, alpha := s.FromNRGBA(p)
 	xyz := s.ToXYZ(c)
@@ -84,9 +96,10 @@ func pipeline(s, d *sp.API, p color.NRGBA) color.NRGBA {
 }
 
 type pairRef struct {
-	lut   [256]float64
-	m     ref.M3
-	adapt bool
+	lut     [256]float64
+	m       ref.M3
+	ms, mdi ref.M3 // source RGB->XYZ and destination XYZ->RGB alone
+	adapt   bool
 }
 
 var pairRefs [4][4]*pairRef
@@ -114,6 +127,7 @@ func getRef(si, di int) *pairRef {
 	ms, ws := mk(s)
 	md, wd := mk(d)
 	mdi, _ := md.Inv()
+	pr.ms, pr.mdi = ms, mdi
 	if ws != wd {
 		pr.adapt = true
 		pr.m = mdi.Mul(ref.Bradford(ref.XYZOf(ws, 1), ref.XYZOf(wd, 1))).Mul(ms)
@@ -144,7 +158,13 @@ func check(c Case) (kind, what string, nt bool) {
 	if p, msg := ev.Guard(func() { got, outA = pipelineVia(s, d, color.NRGBA{R: c.R, G: c.G, B: c.B, A: c.A}, c.Via) }); p {
 		return "panic", msg, true
 	}
-	lin := pr.m.MulV(ref.V3{pr.lut[c.R], pr.lut[c.G], pr.lut[c.B]})
+	m := pr.m
+	if c.Via == "adapt-xyz-constants" && pr.adapt {
+		// the same pipeline with the adaptation built between the package's XYZ white constants
+		ws, wd := whiteConst(s), whiteConst(d)
+		m = pr.mdi.Mul(ref.Bradford(ref.V3{float64(ws.X), float64(ws.Y), float64(ws.Z)}, ref.V3{float64(wd.X), float64(wd.Y), float64(wd.Z)})).Mul(pr.ms)
+	}
+	lin := m.MulV(ref.V3{pr.lut[c.R], pr.lut[c.G], pr.lut[c.B]})
 	nt = pr.adapt
 	for i := 0; i < 3; i++ {
 		if lin[i] < 0 || lin[i] > 1 {
@@ -174,7 +194,8 @@ func viaNote(v string) string {
 
 // "adapt-always": the default constructors, with the adaptation step applied whether or not the white points differ
 // (between equal whites it is the identity)
-var vias = []string{"rgba", "encoded", "encoded64", "adapt-always"}
+// "adapt-xyz-constants": the adaptation built with AdaptBetweenXYZWhitePoints from ciexyz.D50 / ciexyz.D65
+var vias = []string{"rgba", "encoded", "encoded64", "adapt-always", "adapt-xyz-constants"}
 
 func TestC04(t *testing.T) {
 	if ev.Replaying() != nil {
@@ -200,7 +221,7 @@ func TestC04(t *testing.T) {
 		fmt.Println("REPLAY case passed:", c)
 		return
 	}
-	ev.Rule("16 ordered (source,destination) pairs x NRGBA pixels through the README pipeline (opaque pixels also through ColorFromRGBA/ToRGBA, ColorFromEncodedColor of NRGBA and NRGBA64, ToRGBA64, and with the adaptation step applied unconditionally - the identity between equal whites). quick: 64^3 lattice incl. 0 and 255, all greys, the six cube faces at stride 3, all 256 alphas on 64 colours, rapid pixels; thorough: all 2^24 RGB at alpha 255 per pair plus 256 alphas x 4096 colours. non-trivial = distinct (pair, pixel) whose reference result is out of gamut in some channel or whose pair needs chromatic adaptation")
+	ev.Rule("16 ordered (source,destination) pairs x NRGBA pixels through the README pipeline (opaque pixels also through ColorFromRGBA/ToRGBA, ColorFromEncodedColor of NRGBA and NRGBA64, ToRGBA64, with the adaptation step applied unconditionally - the identity between equal whites - and with the adaptation built from the package's XYZ white constants). quick: 64^3 lattice incl. 0 and 255, all greys, the six cube faces at stride 3, all 256 alphas on 64 colours, rapid pixels; thorough: all 2^24 RGB at alpha 255 per pair plus 256 alphas x 4096 colours. non-trivial = distinct (pair, pixel) whose reference result is out of gamut in some channel or whose pair needs chromatic adaptation")
 	ev.Assume("internal/ref EOTF/OETF, matrix derivation from the declared chromaticities, Bradford adaptation")
 	ev.Set("interval", map[string]float64{"half_step": halfStep, "half_code": 0.5, "slack_codes": slack})
 	var sampleMu sync.Mutex
